@@ -21,6 +21,23 @@ C13_MODULES = ["contracts.core_models", "contracts.c09_bounded", "contracts.c13_
 C06_MODULES = C05_MODULES + ["contracts.c13_types", "contracts.c06_names", "contracts.c06_ports", "contracts.c06_stmts"]
 
 PROPERTIES = {
+    "C17": {
+        "modules": ["contracts.core_models", "contracts.c17_proofs"],
+        "level": "other",
+        "explanation": "two layers. PROVED from the real source (number of members enumerated, member widths symbolic): Record._make_serializable assigns member i the slice [w_0+..+w_i-1 : w_0+..+w_{i-1}] (first member at bit 0, contiguous, total = sum) and recomputes the layout unless the class' OWN __dict__ holds one (an inherited layout is not reused); Record._get_reverse_elem_list yields the members in reverse DECLARATION order for every construction order of the instance. BOUNDED (labelled, never counted as proved): the real std.to_bits / from_bits / count_bits / Serialized / BitField are executed on every bit pattern of every type composition of a pool (Bit, bool, BitVector/Unsigned/Signed, Enum/FlagEnum incl. sparse, SFixed/UFixed, cohdl.Array, std.Array incl. nested and of records, records nested / inherited twice / empty-derived / templated with nested templated members, records holding arrays of records) up to 10 (quick) / 13 (thorough) bits and compared with a reference decoding written from the property statement: decode, round trip, width == count_bits, wrong widths rejected, keyword construction in every order, Serialized.from_raw/value/bits, BitField field reads and writes touching exactly the declared range.",
+        "assumptions": COMMON_ASSUME + [
+            "the dispatch of to_bits/from_bits (_FromBits.__call__, std.Array._from_bits_/_to_bits_, Enum/SFixed/UFixed/BitField adapters) is traced higher-order code over type-qualified values: covered by the bounded sweep only",
+            "'identical in emitted logic' is not executed (no VHDL simulator): serialisation in a synthesizable context runs the same Python functions on signals; the emitted slices/concats rest on the slice-offset contracts of C02/C13",
+            "BitField writes are observed through Variable-backed fields with .value (eager evaluation outside the compiler)",
+        ],
+        "extra": ["contracts.c17_serial.serial_sweep"],
+        "canaries": [
+            {"name": "slice-off-by-one", "contract": "cohdl.std._record:_make_serializable", "case": "3-members", "file": "cohdl/std/_record.py",
+             "old": "        slice_map[name] = slice(elem_start + width - 1, elem_start)", "new": "        slice_map[name] = slice(elem_start + width, elem_start)"},
+            {"name": "inherited-layout-reused", "contract": "cohdl.std._record:_make_serializable", "case": "2-members-inherited", "file": "cohdl/std/_record.py",
+             "old": "    if \"_cohdlstd_bitcount\" in cls.__dict__:", "new": "    if hasattr(cls, \"_cohdlstd_bitcount\"):"},
+        ],
+    },
     "C18": {
         "modules": ["contracts.core_models", "contracts.c18_proofs"],
         "level": "other",
